@@ -43,7 +43,19 @@
 //! is not claimed either way; empty defaults / `|` inside simple defaults / variables in the FALSE branch are not
 //! generated (undocumented syntax: `${A|t|x${B}}` leaves a stray `}` when A is true).
 //!
-//! Sensitivity probes: see the end of this header.
+//! Sensitivity probes (benchmarks/src/sql_benchmark.rs, patches made with mkpatch, run as
+//! `mutrun <patch> -- ./check C46 quick`; all six reported VIOLATION / exit 1 within the quick budget, the
+//! unchanged tree passes seeds 0..4):
+//! 1. `.take(query.column_count)` → `.take(query.column_count.saturating_sub(1))` (last column not compared, DESIGN
+//!    probe): VIOLATION after 30 evaluations (persisted Int(0) vs actual NULL accepted).
+//! 2. `expected_val == actual_val` → `expected_val.trim() == actual_val.trim()` (DESIGN probe): VIOLATION after 86
+//!    evaluations (persisted "\r" vs actual "" accepted; also "NULL " vs "NULL").
+//! 3. `lookup_replacement_value`: environment consulted before the caller's map (DESIGN probe): VIOLATION after 18
+//!    evaluations (`${vfc46_k1}` with explicit TRUE resolved to the environment's `true`).
+//! 4. row count test `!=` → `<` (extra actual rows ignored by the zip): VIOLATION after 91 evaluations.
+//! 5. boolean branch `v.eq_ignore_ascii_case("true")` → `v == "true"`: VIOLATION after 12 evaluations.
+//! 6. `expected_val == actual_val` → `expected_val.eq_ignore_ascii_case(actual_val)`: VIOLATION after 163
+//!    evaluations (persisted NULL vs actual text `null` accepted).
 use arrow::array::{Array, AsArray};
 use arrow::datatypes::DataType;
 use datafusion::prelude::{SessionConfig, SessionContext};
@@ -1110,7 +1122,7 @@ impl Property for C46 {
         prop_oneof![1 => res_case(tier), 2 => ph_case()].boxed()
     }
     fn budget(&self, tier: Tier) -> Budget {
-        Budget::new(tier.pick(2_000, 150_000), tier.pick(8, 16)).min_nontrivial(tier.pick(300, 15_000)).case_timeout(180)
+        Budget::new(tier.pick(1_500, 100_000), tier.pick(8, 16)).min_nontrivial(tier.pick(200, 15_000)).case_timeout(180).shrink(1000, 60)
     }
     fn rule(&self) -> String {
         "1:2 mix of result cases (0-10 rows x 1-4 typed columns loaded from VALUES by a generated benchmark file, persisted, then a possibly mutated table verified against the persisted file through SqlBenchmark) \
